@@ -139,7 +139,7 @@ func TestP1Splits(t *testing.T) {
 	rec := ev.New("C12", "splits")
 	defer rec.Finish(t)
 	rec.Rule("inputs: programs (control-flow and data programs; with eexec sections in hex or binary whose readstring payloads straddle the scanner's 512-byte buffer), CMap files, Type 1 fonts in all four containers (independent writer and library writer), AFM files, PFB streams - valid and lightly corrupted (bit flip, truncation, inserted CR). For every input: every two-chunk split position 0..len (exhaustive per input, inputs up to 6 KB), one-byte reads with and without EOF delivered together with the last byte. Oracle: result digest and err == nil equal to the all-at-once bytes.Reader run. Non-trivial: split position inside a token or binary data or between CR and LF; distinct by (input, position).")
-	ev.SetupRapid(90, 2000)
+	ev.SetupRapid(120, 2400)
 	rapid.Check(t, func(t *rapid.T) {
 		target, data, label := genInput(t)
 		if len(data) > 6000 {
@@ -181,7 +181,7 @@ func TestP2Chunks(t *testing.T) {
 	rec := ev.New("C12", "chunks")
 	defer rec.Finish(t)
 	rec.Rule("the same inputs under rapid-drawn chunk-size sequences (sizes 1..700, with 511/512/513 and tiny sizes), with and without data delivered together with EOF, and - for type1.Read - through a source that supports seeking vs one that does not. Non-trivial: >= 2 reads; distinct by (input, schedule).")
-	ev.SetupRapid(9000, 320000)
+	ev.SetupRapid(12000, 480000)
 	rapid.Check(t, func(t *rapid.T) {
 		target, data, label := genInput(t)
 		c := &schedCase{Target: target, Data: data, Kind: "chunks", Sizes: genSizes(t), WithEOF: rapid.Bool().Draw(t, "witheof")}
@@ -251,7 +251,7 @@ func TestP3MultiCall(t *testing.T) {
 	defer rec.Finish(t)
 	rec.Rule("a program (C03 / C02 generators, without stop, without currentfile reads and DSC lines) is flattened into tokens, cut at 1-6 drawn token boundaries - also inside an unfinished procedure body - and fed to one interpreter in consecutive Execute calls (feeding stops at the first error); the canonical state and the error name must equal those of a single call with the concatenation. Non-trivial: >= 2 pieces and at least one cut inside an open '{'; distinct by pieces.")
 	cfg := psgen.Config{TypeLiteral: true}
-	ev.SetupRapid(9000, 320000)
+	ev.SetupRapid(20000, 640000)
 	rapid.Check(t, func(t *rapid.T) {
 		var toks []psref.Tok
 		if rapid.Bool().Draw(t, "control") {
